@@ -281,6 +281,7 @@ let handle (line : string) : string =
   let b = Buffer.create 256 in
   (match next t with
    | "LIM" -> lim := next_int t; Buffer.add_string b "OK"
+   | "DROP" -> let _ = next t in Buffer.add_string b "OK"
    | "D" ->
        let id = next t in let k = next_int t in
        let ops = parse_list t parse_dop k in
